@@ -1,6 +1,7 @@
 import Autog.Properties.C16
 import Autog.Lemmas.SinkSweep
 import Autog.Model.Layout
+import Autog.Lemmas.BlockWide
 /-! # C04 — nodes never overlap and keep the configured spacing
 
     Within a band (layer list, helper nodes included) consecutive nodes are separated: `x + w + NodeSpacing ≤ x'`.
@@ -8,8 +9,10 @@ import Autog.Model.Layout
     * SinkColoring: `placeBlock` only returns after a sweep that tested every adjacent pair of every layer and shifted
       nothing; the theorem is about the model `execSinkColoring` (key `T:phase4-sinkcoloring`). It assumes that a block
       is at least as wide as each of its nodes (`BlockWide`, a decidable contract on the block structure `scBlocks`
-      returns; evaluated by the driver on every traced run as `K:sc-blockwidth`) — PARTIAL: that `setColor` establishes
-      it is not proved. Termination of the fixpoint iteration is not proved either (C01).
+      returns; evaluated by the driver on every traced run as `K:sc-blockwidth`). `C04_blockwide` PROVES that contract for every
+      properly layered state (`LayeredWF`, a structural contract on what phases 2–3 hand over, evaluated as `K:layered`): `setColor`
+      rewrites `roots` only at its own node and strictly above, the loops run bottom-up, block widths only grow — hence
+      `C04_sinkcoloring_separated_layered` needs no assumption about the blocks. Termination of the fixpoint iteration is not proved (C01).
     * NetworkSimplex positioner: no theorem here; see DESIGN.md (predicate on real outputs only).
     Bands of one component do not overlap vertically by C03. Components: `C04_shift_clears_component`. -/
 
@@ -49,10 +52,6 @@ theorem le_foldl_max (f : Layer → Nat) : ∀ (ls : List Layer) (m : Nat) (l : 
 theorem len_le_scLmax (g : G) (l : Layer) (hl : l ∈ g.layers.toList) : l.nodes.length ≤ scLmax g :=
   le_foldl_max (fun l => l.nodes.length) _ 0 l hl
 
-/-- a block is at least as wide as each of its nodes -/
-def BlockWide (g : G) (bw : Array Rat) (roots : Array Nat) : Prop :=
-  ∀ n ∈ g.layers.toList.flatMap (·.nodes), (g.node n).w ≤ bw.getD (roots.getD n n) 0
-
 theorem scWrite_x (g : G) (hwf : LayersWF g) (xc : Array Rat) (l : Layer) (hl : l ∈ g.layers.toList) (n : Nat) (hn : n ∈ l.nodes) :
     ((scWrite g xc).node n).x = xc.getD n 0 ∧ ((scWrite g xc).node n).w = (g.node n).w := by
   have hplan : PlWF g (scPlan g xc) := plwf_of_layers g g rfl hwf (fun l => l.nodes.map fun k => xc.getD k 0) (fun l _ => by simp)
@@ -90,6 +89,22 @@ theorem C04_sinkcoloring_separated (ns : Rat) (g : G) (hwf : LayersWF g) (bw : A
     rw [hx1, hx2, hw1]
     have hw := hwide p.1 (List.mem_flatMap.2 ⟨l, hl, hp1⟩)
     grind
+
+/-- C04 (SinkColoring, the default positioner), without the block-width contract: on every properly layered state (`LayeredWF`: in-edges
+    end at their node and never point upwards, the layer lists are visited bottom-up — what phases 2–3 hand over; evaluated on every
+    traced run as `K:layered`) consecutive nodes of every band are separated by at least NodeSpacing when the positioner returns -/
+theorem C04_sinkcoloring_separated_layered (ns : Rat) (g : G) (hwf : LayersWF g) (hL : LayeredWF g)
+    (g' : G) (d : Nat) (h : execSinkColoring ns g = .ok (g', d)) :
+    ∀ l ∈ g.layers.toList, ∀ p ∈ adjPairs l.nodes,
+      (g'.node p.1).x + (g'.node p.1).w + ns ≤ (g'.node p.2).x := by
+  cases hb : scBlocks g with
+  | error e => unfold execSinkColoring at h; simp [hb, bind, Except.bind] at h
+  | ok r =>
+    obtain ⟨bw, roots⟩ := r
+    exact C04_sinkcoloring_separated ns g hwf bw roots hb (scBlocks_blockWide g hL bw roots hb) g' d h
+
+theorem C04_blockwide : type_of% @scBlocks_blockWide := @scBlocks_blockWide
+theorem C04_layered_contract_sound : type_of% @layeredWFb_sound := @layeredWFb_sound
 
 /-! ## components side by side -/
 
